@@ -219,7 +219,7 @@ func VH05a_cooked() {
 		}
 	}
 	verif.Reach("done")
-	sock.Close()
+	vp.CloseCensus(sock, "C10/rep-respondent/after-history")
 }
 
 var raws = []string{"xrep", "xrespondent"}
@@ -318,7 +318,7 @@ func VH05b_raw() {
 			verif.Assert(verif.BytesEq(p.Sent[0].Bytes(), want), lab+"/reply-strips-exactly-the-pipe-id")
 		}
 	}
-	sock.Close()
+	vp.CloseCensus(sock, "C10/rep-respondent/after-history")
 }
 
 // VH05d_burst: a REP / RESPONDENT socket or context holds request A (from
@@ -467,7 +467,7 @@ func VH05d_burst() {
 	}
 	check()
 	verif.Reach("burst-epilogue")
-	sock.Close()
+	vp.CloseCensus(sock, "C10/rep-respondent/after-history")
 }
 
 // VH05e_deep_header: the hop limit is raised (TTL 16) and a request arrives
@@ -525,7 +525,7 @@ func VH05e_deep_header() {
 		}
 	}
 	verif.Reach("deep-header-routed")
-	sock.Close()
+	vp.CloseCensus(sock, "C10/rep-respondent/after-history")
 }
 
 // VH05f_many_contexts: M (5) contexts of one REP / RESPONDENT socket, each
@@ -624,7 +624,7 @@ func VH05f_many_contexts() {
 	}
 	verif.Assert(n == want, lab+"/number-of-replies-on-the-wire")
 	verif.Reach("many-contexts-replied")
-	sock.Close()
+	vp.CloseCensus(sock, "C10/rep-respondent/after-history")
 }
 
 // VH05g_blocked_reply: a REP / RESPONDENT socket or context with a send deadline answers requests of a stalled peer
@@ -716,5 +716,5 @@ func VH05g_blocked_reply() {
 	}
 	verif.Assert(len(p1.Sent) <= 1, lab+"/reply-to-B-more-than-once")
 	verif.Reach("blocked-reply-checked")
-	sock.Close()
+	vp.CloseCensus(sock, "C10/rep-respondent/after-history")
 }
